@@ -17,6 +17,7 @@ import (
 	"github.com/antlr4-go/antlr/v4"
 	"github.com/specterops/dawgs/cypher/frontend"
 	"github.com/specterops/dawgs/cypher/models/cypher"
+	"github.com/specterops/dawgs/cypher/models/cypher/format"
 	"github.com/specterops/dawgs/cypher/parser"
 )
 
@@ -154,6 +155,7 @@ type c08Result struct {
 	unsup            []string
 	inc              []string
 	panicMsg         string
+	render           string // ok | err | panic:<msg> | "" (nothing to render)
 	dur              time.Duration
 	alloc            uint64
 }
@@ -214,6 +216,18 @@ func c08Parse(ctx *frontend.Context, text string) (res c08Result) {
 		} else {
 			res.cls = "ok"
 		}
+		// an accepted model must be renderable: format.RegularQuery may report an error, it must not panic
+		res.render = "ok"
+		func() {
+			defer func() {
+				if p := recover(); p != nil {
+					res.render = "panic:" + strings.NewReplacer(" ", "_", "\n", "_").Replace(fmt.Sprint(p))
+				}
+			}()
+			if _, ferr := format.RegularQuery(model, false); ferr != nil {
+				res.render = "err"
+			}
+		}()
 	}
 	return
 }
@@ -275,6 +289,10 @@ func modelIncomplete(q *cypher.RegularQuery) []string {
 		switch v.Kind() {
 		case reflect.Pointer, reflect.Interface:
 			if !v.IsNil() {
+				// a typed nil in an interface slot ((*cypher.Literal)(nil) as an Expression): "present" to every nil check, absent in fact
+				if v.Kind() == reflect.Interface && v.Elem().Kind() == reflect.Pointer && v.Elem().IsNil() {
+					seen["typed-nil:"+v.Elem().Type().Elem().Name()] = true
+				}
 				walk(v.Elem(), depth+1)
 			}
 		case reflect.Struct:
@@ -307,11 +325,17 @@ func modelIncomplete(q *cypher.RegularQuery) []string {
 			}
 		case reflect.Slice, reflect.Array:
 			for i := 0; i < v.Len(); i++ {
+				if e := v.Index(i); (e.Kind() == reflect.Interface || e.Kind() == reflect.Pointer) && e.IsNil() {
+					seen["nil-element:"+v.Type().Elem().String()] = true
+				}
 				walk(v.Index(i), depth+1)
 			}
 		case reflect.Map:
 			it := v.MapRange()
 			for it.Next() {
+				if e := it.Value(); (e.Kind() == reflect.Interface || e.Kind() == reflect.Pointer) && e.IsNil() {
+					seen["nil-map-value:"+v.Type().String()] = true
+				}
 				walk(it.Value(), depth+1)
 			}
 		}
@@ -433,8 +457,12 @@ func (r *c08Runner) Step(t []string, raw string) string {
 	older := frontend.DefaultCypherContext()
 	_ = frontend.DefaultCypherContext()
 	o := c08Parse(older, text)
-	return fmt.Sprintf("n=%s/%d d=%s/%d o=%s/%d raw=%d nsyn=%d nother=%d nunsup=[%s] dsyn=%d dother=%d dfilt=%d dunsup=[%s] inc=[%s] slow=%d trace=%s tree=%s",
-		n.cls, n.isNil, d.cls, d.isNil, o.cls, o.isNil, rawErrs, n.syn, n.other, strings.Join(n.unsup, ","), d.syn, d.other, d.filt, strings.Join(d.unsup, ","),
+	render := n.render
+	if render == "" {
+		render = "-"
+	}
+	return fmt.Sprintf("n=%s/%d d=%s/%d o=%s/%d render=%s raw=%d nsyn=%d nother=%d nunsup=[%s] dsyn=%d dother=%d dfilt=%d dunsup=[%s] inc=[%s] slow=%d trace=%s tree=%s",
+		n.cls, n.isNil, d.cls, d.isNil, o.cls, o.isNil, render, rawErrs, n.syn, n.other, strings.Join(n.unsup, ","), d.syn, d.other, d.filt, strings.Join(d.unsup, ","),
 		strings.Join(n.inc, ","), slow, trace, tree)
 }
 
@@ -555,6 +583,9 @@ var c08Keywords = []string{
 var c08Fixed = []string{
 	"", " ", "\t\n\r ", "\u00a0", "\u2003\u2028", "\u001c", "\u180e", "/* only a comment */", "// line comment", ";", "\x00",
 	"CALL foo.bar()", "CALL foo.bar", "CALL foo.bar() YIELD a", "CALL db.labels() YIELD label RETURN label",
+	"MATCH (n) SET n.a.b = 1", "MATCH (n) REMOVE n.a.b", "MATCH (n) SET n.a.b.c = 1, n.x.y = 2, n.z = 3", "MATCH (n) WITH n SET n.a.b = n.c.d RETURN n.e.f",
+	"RETURN 1 /* c */ + 2", "RETURN 1 + /* c */ 2", "RETURN - /* c */ 1", "RETURN 2 ^ /* c */ 3 * 4", "RETURN 1 \u001c+ 2", "RETURN NOT NOT true", "MATCH (n) WHERE NOT NOT NOT n.a RETURN n",
+	"MATCH (n)-[*2]->(m) RETURN m", "RETURN ns.fn(1)",
 	"LOAD CSV FROM 'x' AS l RETURN l", "LOAD CSV WITH HEADERS FROM 'x' AS l FIELDTERMINATOR ';' RETURN l",
 	"MATCH (n) CALL foo.bar() YIELD x RETURN n", "MATCH (n) USING INDEX n:Person(name) RETURN n", "CYPHER 2.3 MATCH (n) RETURN n",
 	"EXPLAIN MATCH (n) RETURN n", "PROFILE MATCH (n) RETURN n", "START n=node(1) RETURN n", "MATCH (n) RETURN n UNION MATCH (m) RETURN m",
@@ -712,6 +743,18 @@ func (c08Suite) Gen(rng *Rng, tier string, w *bufio.Writer, stats *Stats) {
 	}
 	for _, s := range numericCases(rng, npos) {
 		emit("num", s)
+	}
+	// (d) empty maps / lists / strings in EVERY expression position; (e) dangling sigils, operators without an operand, openers without
+	// a closer, reserved words as names in every expression position of every clause kind
+	for _, s := range slotCases(rng, emptyLits, exprPositions, 0) {
+		emit("empty", s)
+	}
+	ndang := 0
+	if !thorough {
+		ndang = 20
+	}
+	for _, s := range slotCases(rng, danglingBits, exprPositions, ndang) {
+		emit("dangling", s)
 	}
 	// (c) multi-byte / invalid UTF-8 payloads of 20..200 bytes inside every unsupported construct and error path
 	npay := 3
